@@ -26,21 +26,21 @@ ASSUMES = ["no symlinks inside the jail other than those the generator creates",
 
 OPS = [">", ">>", "&>", "&>>", "2>", "2>>", ">|", "1>", "3>>", "{fd}>", ">&", "<>", "3<>", "2>|"]
 NODES = ["{cmd}{r}", "{{ {cmd}; }}{r}", "( {cmd} ){r}", "if true; then {cmd}; fi{r}", "while false; do {cmd}; done{r}", "until true; do {cmd}; done{r}", "for i in 1; do {cmd}; done{r}", "for ((i=0;i<1;i++)); do {cmd}; done{r}", "case x in x) {cmd};; esac{r}", "[[ -n x ]]{r}", "(( 1 )){r}", "{cmd}{r} | cat", "true && {cmd}{r}", "f() {{ {cmd}{r}; }}; f", "time {cmd}{r}", "! {cmd}{r}"]
-CD_FORMS = [("first-literal", "cd sub && {x}"), ("first-literal", "cd sub; {x}"), ("not-first", "true; cd sub; {x}"), ("newline", "cd sub\n{x}"), ("in-if", "if cd sub; then {x}; fi"), ("in-group", "{{ cd sub; }}; {x}"),
+CD_FORMS = [("okdir-literal", "cd okdir && {x}"), ("first-literal", "cd sub && {x}"), ("first-literal", "cd sub; {x}"), ("not-first", "true; cd sub; {x}"), ("newline", "cd sub\n{x}"), ("in-if", "if cd sub; then {x}; fi"), ("in-group", "{{ cd sub; }}; {x}"),
             ("subshell", "(cd sub); {x}"), ("pipeline", "cd sub | {x}"), ("or", "cd nonexistent || {x}"), ("with-flag", "cd -P sub && {x}"), ("chained", "cd sub && cd .. && {x}"), ("variable", "d=sub; cd $d; {x}"), ("pushd", "pushd sub >/dev/null; {x}")]
 TOOLS = ["echo data | tee {f}", "echo data | tee -a {f}", "sort -o {f} in", "sort -ro {f} in", "sort --output={f} in", "sed -i s/a/b/ {f}", "sed -ni s/a/b/p {f}", "sed -n 'w {f}' in", "sed 's/a/b/w {f}' in",
          "awk '{{print > \"{f}\"}}' in", "awk '{{print >> \"{f}\"}}' in", "iconv -f utf-8 -t ascii -o {f} in", "iconv -o{f} in"]
 
 
 def targets(work):
-    return ["ok", "okdir/a", "okdir/deep/b", "f", "no", "q", "sub/x", "./ok", "okdir/../f", work + "/ok", work + "/f", '"ok"', "'okdir/a'", "-", "/dev/null", "&1", "../escape", "ok/", "okdir//a", "sub/../ok", "3", "10", "007", "&2", "&-", "1", "-x", "~nobody", ".", "ok.1", "okdir/link/x", "okdir/link/../esc", "okdir/cur.log", "okdir/./link/y",
+    return ["ok", "okdir/a", "okdir/deep/b", "f", "no", "q", "sub/x", "./ok", "okdir/../f", work + "/ok", work + "/f", '"ok"', "'okdir/a'", "-", "/dev/null", "&1", "../escape", "ok/", "okdir//a", "sub/../ok", "3", "10", "007", "&2", "&-", "1", "-x", "~nobody", ".", "ok.1", "okdir/link/x", "okdir/link/../esc", "okdir/cur.log", "okdir/./link/y", "cur.log", "lnk.log",
             # quoting inside the word: bash removes it before opening the file
             'okdir/".."/esc_q', "okdir/'..'/esc_s", "okdir/\\.\\./esc_b", 'okdir/..""/esc_e', "'&amp_file'", 'okdir/a"b"', '"okdir"/../esc_d', "ok\\dir/../esc_k", work + '/okdir/".."/esc_abs']
 
 
 def config_for(work, r):
     lines = ["allow-redirect " + work + "/ok", "allow-redirect " + work + "/okdir/**", "deny-redirect " + work + "/no \"no\"", "ask-redirect " + work + "/q"]
-    extra = ["allow-redirect sub/**", "allow-redirect " + work + "/sub/x", "deny-redirect " + work + "/okdir/deep/**", "allow-redirect f", "ask-redirect **/f", "allow-redirect " + work + "/**", "deny-redirect **"]
+    extra = ["allow-redirect " + work + "/*.log", "allow-redirect *.log", "allow-redirect sub/**", "allow-redirect " + work + "/sub/x", "deny-redirect " + work + "/okdir/deep/**", "allow-redirect f", "ask-redirect **/f", "allow-redirect " + work + "/**", "deny-redirect **"]
     for _ in range(r.randint(0, 2)):
         lines.insert(r.randrange(len(lines) + 1), r.pick(extra))
     return "\n".join(lines) + "\n"
@@ -144,7 +144,7 @@ def search(ctx):
                 os.utime(os.path.join(work, "in"))
                 # a symlink inside a granted directory that leads out of it, and a link to a file
                 os.makedirs(os.path.join(jail.root, "outside"), exist_ok=True)
-                for link, dest in (("okdir/link", os.path.join(jail.root, "outside")), ("okdir/cur.log", os.path.join(work, "no"))):
+                for link, dest in (("okdir/link", os.path.join(jail.root, "outside")), ("okdir/cur.log", os.path.join(work, "no")), ("lnk.log", os.path.join(work, "no"))):
                     lp = os.path.join(work, link)
                     if not os.path.lexists(lp):
                         os.symlink(dest, lp)
@@ -182,7 +182,7 @@ def search(ctx):
                     real = os.path.realpath(p)
                     # a relative rule pattern means "relative to the directory the shell is in": after a leading literal
                     # `cd sub` bash writes from <work>/sub
-                    m = C.match_redirect(real, cfg, Path(os.path.join(work, "sub")) if cd == "first-literal" else Path(work))
+                    m = C.match_redirect(real, cfg, Path(os.path.join(work, "sub")) if cd == "first-literal" else Path(os.path.join(work, "okdir")) if cd == "okdir-literal" else Path(work))
                     if m is None or m.decision != "allow":
                         bad.append(os.path.relpath(real, work))
                 out.append(("ran", x, cfg_text.replace(work, "<work>"), cd, [os.path.relpath(p, work) for p in changed], bad))
